@@ -3,6 +3,7 @@ package main
 import (
 	"context"
 	"errors"
+	"fmt"
 	"io"
 	"net"
 	"net/http"
@@ -27,7 +28,17 @@ import (
 // layer that has both, Flush() discards what FlushError() returns (as net/http's writers do).
 // A header assignment cannot be intercepted (Header() hands out the map): the recorder notes
 // that Header() was called and logs, right before the next call or at the end of the current
-// phase, one "header set" entry with the Content-Type found in the map at that moment.
+// phase, one "header set" entry with the Content-Type found in the map at that moment - i.e.
+// the value in force when that Write/Flush happens.
+//
+// A Content-Type may already be on the response before the session's first Send/Flush ("preset":
+// a middleware in front of sse.Upgrade, or OnSession preparing an error answer and accepting
+// after all); presetopt = () | ((x<value> ...)) is assigned to Header()["Content-Type"] as it is
+// (no value at all, an empty value, several values, text/event-stream with a parameter ...).
+//
+// The error a provider refuses with: perropt = () | (x<text> n<kind> x<prefix>), text = err.Error(),
+// kind 0 = an opaque error with that text, the others the errors a provider really returns:
+// see refusalError.
 
 func init() { families["session"] = family{gen: genSession, exec: execSession} }
 
@@ -223,9 +234,50 @@ func (p *recProvider) Subscribe(_ context.Context, sub sse.Subscription) error {
 		p.results = runSessionCalls(p.rec, p.server, sub.Client, p.pool, p.calls)
 	}
 	if p.perr.Present() {
-		return textErr(p.perr.At(0).Str())
+		return refusalError(p.perr.At(1).Num(), p.perr.At(0).Str(), p.perr.At(2).Str())
 	}
 	return nil
+}
+
+// refusalError: the error Subscribe returns.  kind 0: an opaque error whose text is <text>;
+// 1: sse.ErrProviderClosed itself (what Joe answers after Shutdown); 2: an error wrapping it
+// ("<prefix>: %w", what an adapter around another provider returns); 3: context.Canceled;
+// 4: sse.ErrNoTopic; 5: an error wrapping context.Canceled; 6: context.DeadlineExceeded;
+// 7: an error wrapping sse.ErrNoTopic; 8: errors.Join of an opaque error and sse.ErrProviderClosed.
+func refusalError(kind uint64, text, prefix string) error {
+	switch kind {
+	case 1:
+		return sse.ErrProviderClosed
+	case 2:
+		return fmt.Errorf("%s: %w", prefix, sse.ErrProviderClosed)
+	case 3:
+		return context.Canceled
+	case 4:
+		return sse.ErrNoTopic
+	case 5:
+		return fmt.Errorf("%s: %w", prefix, context.Canceled)
+	case 6:
+		return context.DeadlineExceeded
+	case 7:
+		return fmt.Errorf("%s: %w", prefix, sse.ErrNoTopic)
+	case 8:
+		return errors.Join(textErr(prefix), sse.ErrProviderClosed)
+	}
+	return textErr(text)
+}
+
+const refusalKinds = 9
+
+// perrV: the input form of a refusal (the text is what the error says, on this tree)
+func perrV(kind uint64, prefix string) val.V {
+	return val.L(val.S(refusalError(kind, prefix, prefix).Error()), val.N(kind), val.S(prefix))
+}
+
+// setPreset puts a Content-Type on the response the way user code does
+func setPreset(w http.ResponseWriter, presetopt val.V) {
+	if presetopt.Present() {
+		w.Header()["Content-Type"] = presetopt.At(0).Strs()
+	}
 }
 func (p *recProvider) Publish(*sse.Message, []string) error { return errors.New("unused") }
 func (p *recProvider) Shutdown(context.Context) error       { return nil }
@@ -248,11 +300,18 @@ func execSession(in val.V) val.V {
 // fails.  net/http is not modelled; this only shows that the recording writer above stands for
 // a real one (which offers both Flush and FlushError).
 //
-//	input  : (n2 (msg ...) (call ...))     at least one call
+//	input  : (n2 (msg ...) (call ...) presetopt)     at least one call; the preset is OnSession's
 //	output : (n<status> x<Content-Type> x<body> (n<returned> ...))
 func execRealServer(in val.V) val.V {
 	prov := &realProvider{pool: poolOf(in.At(1)), calls: in.At(2).Items()}
-	ts := httptest.NewServer(&sse.Server{Provider: prov})
+	srv := &sse.Server{Provider: prov}
+	if p := in.At(3); p.Present() {
+		srv.OnSession = func(w http.ResponseWriter, _ *http.Request) ([]string, bool) {
+			setPreset(w, p)
+			return nil, true
+		}
+	}
+	ts := httptest.NewServer(srv)
 	defer ts.Close()
 	client := &http.Client{Timeout: 20 * time.Second, Transport: &http.Transport{DisableKeepAlives: true}}
 	res, err := client.Get(ts.URL)
@@ -309,9 +368,11 @@ func poolOf(v val.V) []*sse.Message {
 }
 
 func execSessionCalls(in val.V) val.V {
-	var other []val.V
-	rec := &rwRec{script: in.At(4).Items(), hdr: http.Header{}, cur: &other}
+	var other, before []val.V
+	rec := &rwRec{script: in.At(4).Items(), hdr: http.Header{}, cur: &before}
 	w := buildWriter(rec, in.At(1))
+	setPreset(w, in.At(5)) // user code in front of Upgrade (its own writer calls are not part of the observation)
+	rec.phase(&other)
 	sess, err := sse.Upgrade(w, httptest.NewRequest(http.MethodGet, "/", nil))
 	if err != nil {
 		if !errors.Is(err, sse.ErrUpgradeUnsupported) || sess != nil {
@@ -340,6 +401,7 @@ func execServe(in val.V) val.V {
 		o := ons.At(0)
 		srv.OnSession = func(ow http.ResponseWriter, r *http.Request) ([]string, bool) {
 			rec.phase(&user)
+			setPreset(ow, o.At(4))
 			if o.At(2).Present() {
 				ow.WriteHeader(o.At(2).At(0).Int())
 			}
@@ -409,6 +471,28 @@ func smallPool() val.V {
 		msgV(sp("i1"), sp("t"), 1_500_000_000, commentV("c"), dataV("x\ny")),
 		msgV(nil, nil, 0), // nothing to write
 	)
+}
+
+// Content-Type values found on a response before the session's first Send/Flush (presetopt)
+func presetV(values ...string) val.V { return val.L(val.Strs(values)) }
+
+var presets = []val.V{
+	presetV("application/json"),
+	presetV("text/plain; charset=utf-8"),
+	presetV("text/event-stream; charset=utf-8"),
+	presetV("text/event-stream"),
+	presetV(""),
+	presetV(), // the key is there, without a value
+	presetV("text/html", "text/event-stream"),
+	presetV("Text/Event-Stream"),
+}
+
+// a preset or, half of the time, none
+func maybePreset(r *rng.R) val.V {
+	if r.Intn(2) == 0 {
+		return val.L()
+	}
+	return presets[r.Intn(len(presets))]
 }
 
 func sendV(i int) val.V { return val.L(val.N(0), val.Int(i)) }
@@ -494,6 +578,15 @@ func genSession(c *Ctx) {
 			ops := countOps(shape, pool, seq)
 			c.Count("exhaustive:no-failure")
 			c.Emit(val.L(val.N(0), shape, pool, val.List(seq), val.L()))
+			// the same with a Content-Type already on the response before Upgrade: without a failure,
+			// and with the upgrade's own flush failing (the header is set again by the next call)
+			pre := presets[c.R.Intn(len(presets))]
+			c.Count("exhaustive:content-type-preset")
+			c.Emit(val.L(val.N(0), shape, pool, val.List(seq), val.L(), pre))
+			if ops > 0 {
+				c.Count("exhaustive:content-type-preset")
+				c.Emit(val.L(val.N(0), shape, pool, val.List(seq), failAt(0, 0, 7), presets[c.R.Intn(len(presets))]))
+			}
 			for k := 0; k < ops; k++ {
 				for _, accept := range []int{0, 1, 1000} {
 					c.Count("exhaustive:failure-at-every-operation")
@@ -545,7 +638,12 @@ func genSession(c *Ctx) {
 			}
 		}
 		c.Count("random")
-		c.Emit(val.L(val.N(0), rng.Pick(c.R, flushShapes), val.List(msgs), val.List(calls), val.List(script)))
+		pre := val.L()
+		if c.R.Intn(3) == 0 {
+			pre = presets[c.R.Intn(len(presets))]
+			c.Count("random:content-type-preset")
+		}
+		c.Emit(val.L(val.N(0), rng.Pick(c.R, flushShapes), val.List(msgs), val.List(calls), val.List(script), pre))
 	}
 
 	// ServeHTTP: every combination of writer shape, Last-Event-Id values, OnSession result,
@@ -567,6 +665,21 @@ func genSession(c *Ctx) {
 		val.L(val.L(val.L(val.S("a")), val.N(0), status(401))),
 		val.L(val.L(val.L(val.S("t")), val.N(1), status(202))),
 	}
+	baseOns := len(ons)
+	// OnSession has put a Content-Type on the response (preparing an answer of its own) and then
+	// accepts, accepts with a status, or rejects
+	for i, pre := range presets {
+		switch i % 4 {
+		case 0:
+			ons = append(ons, val.L(val.L(val.L(val.S("a"), val.S("b")), val.N(1), val.L(), val.N(0), pre)))
+		case 1:
+			ons = append(ons, val.L(val.L(val.L(), val.N(1), val.L(), val.N(0), pre)))
+		case 2:
+			ons = append(ons, val.L(val.L(val.L(val.S("t")), val.N(1), status(202), val.N(0), pre)))
+		default:
+			ons = append(ons, val.L(val.L(val.L(), val.N(0), status(403), val.N(0), pre)))
+		}
+	}
 	type provider struct {
 		calls []val.V
 		perr  val.V
@@ -580,12 +693,33 @@ func genSession(c *Ctx) {
 		{[]val.V{flushV()}, boom},
 		{[]val.V{sendV(1), sendV(0), flushV(), sendV(2)}, val.L(val.S(""))},
 	}
+	baseProvs := len(provs)
+	// the errors providers really refuse with (sentinels of the library and of context, wrapped or
+	// not), before anything was sent and after; and an opaque error that only reads like a sentinel
+	for k := uint64(1); k < refusalKinds; k++ {
+		provs = append(provs, provider{nil, perrV(k, "adapter")})
+		if k%2 == 1 {
+			provs = append(provs, provider{[]val.V{sendV(0), flushV()}, perrV(k, "adapter: subscribe")})
+		} else {
+			provs = append(provs, provider{[]val.V{flushV()}, perrV(k, "")})
+		}
+	}
+	provs = append(provs, provider{nil, val.L(val.S(sse.ErrProviderClosed.Error()))})
 	scripts := []val.V{val.L(), failAt(0, 0, 3), failAt(0, 5, 3), failAt(1, 2, 4), failAt(2, 0, 5), failAt(4, 1, 6)}
 	shapes := append(append([]val.V{}, flushShapes...), deadShapes...)
 	for _, sh := range shapes {
 		for _, h := range headers {
-			for _, o := range ons {
-				for _, p := range provs {
+			for oi, o := range ons {
+				for pi, p := range provs {
+					if (oi >= baseOns || pi >= baseProvs) && c.R.Intn(3) != 0 {
+						continue // presets and refusal kinds: with a third of the Last-Event-Id headers each
+					}
+					if oi >= baseOns {
+						c.Count("serve:content-type-preset")
+					}
+					if pi >= baseProvs {
+						c.Count("serve:refusal-with-a-real-error")
+					}
 					for si, s := range scripts {
 						if !c.Thorough && si > 0 && c.R.Intn(3) != 0 {
 							continue
@@ -630,7 +764,9 @@ func genSession(c *Ctx) {
 		}
 		perr := val.L()
 		if c.R.Intn(2) == 0 {
-			perr = val.L(val.S(rng.Pick(c.R, []string{"boom", "", "no topics", "line1\nline2"})))
+			texts := []string{"boom", "", "no topics", "line1\nline2", "provider is closed", "context canceled"}
+			perr = perrV(uint64(c.R.Intn(refusalKinds)), rng.Pick(c.R, texts))
+			c.Count(fmt.Sprintf("serve:random:refusal-kind-%d", perr.At(1).Num()))
 		}
 		c.Count("serve:random")
 		c.Emit(val.L(val.N(1), rng.Pick(c.R, shapes), h, rng.Pick(c.R, ons), pool, val.List(calls), perr, val.List(script)))
@@ -661,7 +797,11 @@ func genSession(c *Ctx) {
 				}
 			}
 			c.Count("real-server")
-			c.Emit(val.L(val.N(2), val.List(msgs), val.List(calls)))
+			pre := maybePreset(c.R)
+			if pre.Present() {
+				c.Count("real-server:content-type-preset")
+			}
+			c.Emit(val.L(val.N(2), val.List(msgs), val.List(calls), pre))
 		}
 	}
 }
